@@ -115,8 +115,8 @@ KINDS = [
     Kind("float", "any num float", [lambda: 2.5, lambda: -0.125]),
     Kind("float_edge", "any num float", [lambda: -0.0, lambda: 5e-324, lambda: 1.7976931348623157e308,
                                          lambda: 0.1 + 0.2]),
-    Kind("float_nan", "any num float nonfinite", [lambda: float("nan")], known=K_NONFINITE),
-    Kind("float_inf", "any num float nonfinite", [lambda: float("inf"), lambda: float("-inf")], known=K_NONFINITE),
+    Kind("float_nan", "any num float nonfinite", [lambda: float("nan")]),
+    Kind("float_inf", "any num float nonfinite", [lambda: float("inf"), lambda: float("-inf")]),
     Kind("str", "any str", [lambda: "ab", lambda: ""]),
     Kind("str_quotes", "any str", [lambda: "it's \"q\" '''x''' \"\"\"", lambda: "'", lambda: "\\'\\"]),
     Kind("str_escapes", "any str", [lambda: "a\nb\tc\\d\r", lambda: "x\x00y\x7f", lambda: "{x} {{y}} %s %(k)s"]),
@@ -423,5 +423,7 @@ def traits_of(value, model=None):
             io = any(spec.value is value for spec in model.iospecs)
         except Exception:  # noqa: BLE001
             io = False
+    import math
+    fin = not (t is float and not math.isfinite(value))
     return {"ty": tn(t), "bases": [tn(b) for b in t.__mro__[1:]], "iface": iface, "valid": valid,
-            "mod": sysmod, "io": io}
+            "mod": sysmod, "io": io, "fin": fin}
